@@ -207,23 +207,31 @@ def parse_properties(code: str, parse_from=0, parse_to=None) -> list:
     pool = []
     state = ParsePropertiesState(parse_from)
 
+    def flush_pending():
+        if state.pending_name:
+            # Create property with empty value
+            value_pos = state.pending_name[2]
+            result.append(
+                CSSProperty(fragment, state.pending_name, state.before,
+                            value_pos, value_pos, value_pos,
+                            parse_from))
+            # What follows starts right after the delimiter of the empty property
+            state.before = parse_from + value_pos + 1
+            release_range(pool, state.pending_name)
+            state.pending_name = None
+
     def scan_callback(token_type, start: int, end: int, delimiter: int):
         if token_type == TokenType.Selector:
+            if not state.nested:
+                # A name without value right before a nested section
+                flush_pending()
             state.nested += 1
         elif token_type == TokenType.BlockEnd:
             state.nested -= 1
             state.before = parse_from + end
         elif not state.nested:
             if token_type == TokenType.PropertyName:
-                if state.pending_name:
-                    # Create property with empty value
-                    value_pos = state.pending_name[2]
-                    result.append(
-                        CSSProperty(fragment, state.pending_name, state.before,
-                                    value_pos, value_pos, value_pos,
-                                    parse_from))
-                    release_range(pool, state.pending_name)
-                    state.before = parse_from + start
+                flush_pending()
                 state.pending_name = alloc_range(pool, start, end, delimiter)
             elif token_type == TokenType.PropertyValue:
                 if state.pending_name:
